@@ -6,6 +6,7 @@ import Driver.RangeArith
 import Driver.ClaimTrace
 import Driver.BridgeStore
 import Driver.L1InfoStore
+import Driver.Downloader
 open Driver Aggkit
 
 def keccakStep (_ : Unit) (ws : List String) : Unit × String :=
@@ -25,5 +26,6 @@ def main (args : List String) : IO UInt32 := do
   | ["claimtrace"] => loop inp Driver.ClaimTrace.step (); return 0
   | ["bridgestore"] => loop inp Driver.BridgeStore.step (Aggkit.BridgeStore.BP.init Driver.Tree.H Driver.Tree.N); return 0
   | ["l1infostore"] => loop inp Driver.L1InfoStore.step (Aggkit.L1InfoStore.LP.init Driver.Tree.H Driver.Tree.N); return 0
+  | ["downloader"] => loop inp Driver.Downloader.step (); return 0
   | ["tree"] => loop inp Driver.Tree.step (Aggkit.TM.init Driver.Tree.H Driver.Tree.N); return 0
   | _ => IO.eprintln "usage: aggkit_driver <scenario>"; return 2
